@@ -52,7 +52,7 @@ def dtri(rng, nullable=False):
 
 def domains(rng):
     ds = rng.sample(DOMAINS, rng.randint(0, 3))
-    return val(ds, d=[fnv(d.lower().encode()) for d in ds])
+    return val(ds, d=[fnv(d.lower().encode()) for d in ds], n=sum(len(d) + 2 for d in ds))
 
 
 def gen_cfg(rng):
@@ -63,7 +63,7 @@ def gen_cfg(rng):
         top["search"] = domains(rng)
     if rng.random() < 0.4:
         u = rng.choice(URLS)
-        top["portal"] = val(u, d=fnv(u.encode()))
+        top["portal"] = val(u, d=fnv(u.encode()), n=len(u.encode()))
     i = {"hop": tri(rng, [0, 1, 64, 255], nullable=False), "managed": tri(rng, [True, False], nullable=False), "other": tri(rng, [True, False], nullable=False),
          "lifetime": dtri(rng, nullable=True), "reachable": dtri(rng), "retransmit": dtri(rng),
          "mtu": tri(rng, [1280, 1500, 9000, 65535, 4294967295]), "prefixes": [], "dns": dict(A), "search": dict(A), "pref64": dict(A), "portal": dict(A)}
@@ -101,7 +101,7 @@ def gen_cfg(rng):
     r = rng.random()
     if r < 0.3:
         u = rng.choice(URLS)
-        i["portal"] = val(u, d=fnv(u.encode()))
+        i["portal"] = val(u, d=fnv(u.encode()), n=len(u.encode()))
     elif r < 0.45:
         i["portal"] = dict(NUL)
     env = {"ll": val([2, 0, 0, 0, 0, 1]) if rng.random() < 0.8 else dict(A), "ifmtu": rng.choice([0, 1500, 1480]), "self6": v6("fe80::1") if rng.random() < 0.5 else v6("2001:db8::1"),
@@ -118,9 +118,10 @@ def directed():
     base["if"] = {k: (dict(A) if k != "prefixes" else []) for k in base["if"]}
     base["top"] = {"dns": dict(A), "search": dict(A), "portal": dict(A)}
     out.append(json.loads(json.dumps(base)))
-    for url in ["", "a", "ab" * 3, "abcdef" + "g" * 8, "x" * 22, "y" * 30, "z" * 240]:
+    # every residue of the length modulo 8 (the option is padded to a multiple of 8 octets), small and large
+    for url in ["u" * n for n in list(range(0, 35)) + list(range(61, 67)) + list(range(237, 242)) + list(range(2029, 2040))]:
         c = json.loads(json.dumps(base))
-        c["if"]["portal"] = val(url, d=fnv(url.encode()))
+        c["if"]["portal"] = val(url, d=fnv(url.encode()), n=len(url.encode()))
         out.append(c)
     for lt in DURS:
         for f in ("lifetime", "reachable", "retransmit"):
@@ -132,10 +133,20 @@ def directed():
             c = json.loads(json.dumps(base))
             c["if"]["pref64"] = {"s": "val", "v": 0, "prefix": v6("64:ff9b::"), "len": plen, "lifetime": val(pair(lt))}
             out.append(c)
+    # the list options at the limit of their 8-bit length field: 127 servers fit, 128 do not; a search list fits up to 2032 octets
+    for n in (126, 127, 128, 200):
+        c = json.loads(json.dumps(base))
+        c["if"]["dns"] = {"s": "val", "v": 0, "addresses": val([{"k": "v6", "a": v6("2001:db8::%x" % (k + 1))} for k in range(n)]), "lifetime": dict(A)}
+        out.append(c)
+    for n, last in ((31, 46), (31, 47), (31, 48), (40, 60)):
+        ds = ["d%02d." % k + "x" * 56 + ".example" for k in range(n)] + ["y" * last]
+        c = json.loads(json.dumps(base))
+        c["if"]["search"] = {"s": "val", "v": 0, "domains": val(ds, d=[fnv(d.lower().encode()) for d in ds], n=sum(len(d) + 2 for d in ds)), "lifetime": dict(A)}
+        out.append(c)
     # sections present with only a lifetime: the list must still default to the top level
     c = json.loads(json.dumps(base))
     c["top"]["dns"] = val([ADDRS[0], ADDRS[3]])
-    c["top"]["search"] = val(["example.com"], d=[fnv(b"example.com")])
+    c["top"]["search"] = val(["example.com"], d=[fnv(b"example.com")], n=13)
     c["if"]["dns"] = {"s": "val", "v": 0, "addresses": dict(A), "lifetime": val(pair(7200))}
     c["if"]["search"] = {"s": "val", "v": 0, "domains": dict(A), "lifetime": val(pair(7200))}
     out.append(c)
